@@ -29,6 +29,10 @@ def _by_case(s, c):
 
 def check(ctx):
     p = ctx.prog
+    # no state survives from one call to the next in a function-local static
+    no_static_state(ctx, 'state.no_static_locals')
+    # all arithmetic behind this property happens in the numeric type T of the instantiation
+    single_precision(ctx, 'prec.single_type', ['hep::vegas_chkpt::', 'hep::multi_channel_chkpt::', 'hep::vegas_refine_pdf', 'hep::multi_channel_refine_weights'], 1)
     # ---------------------------------------------------------------- R1 results record the state used
     for f in instances(p, 'hep::vegas_iteration'):
         ctx.analysed(f)
@@ -154,6 +158,43 @@ def check(ctx):
             else:
                 ctx.violation('R2.getters', fsite(gf), '%s() does not return %s' % (getter, member))
         ctx.guard('R2.getters', fsite(gf), rg)
+    # the factories hand every argument to the member of the same role: a checkpoint made with
+    # (min_weight, beta) / (bins, alpha) / (pdf, alpha) adapts with exactly these parameters
+    nfac = 0
+    for nm, binds in (('hep::make_vegas_chkpt', {'alpha': 'alpha_', 'bins': 'bins_'}),
+                      ('hep::make_multi_channel_chkpt', {'beta': 'beta_', 'min_weight': 'min_weight_'})):
+        for f in [f for f in instances(p, nm)
+                  if not (len(f.params) == 1 and 'istream' in (f.params[0].type or ''))]:
+            nfac += 1
+
+            def rfac(f=f, nm=nm, binds=binds):
+                s, ex = summarise(p, f, opaque={'hep::multi_channel_refine_weights'})
+                names = [q.name for q in f.params]
+                ret = s.ret
+                bad = []
+                if isinstance(ret, tuple) and ret and ret[0] == 'new':
+                    # constructor not inlined: the arguments must be (generator, then the parameters in the order
+                    # of the checkpoint constructor that takes them)
+                    base = 'hep::' + nm.split('make_')[1]
+                    cands = [c for c in instances(p, base + '::' + base.split('::')[-1]) if not c.is_implicit
+                             and [q.name for q in c.params] == [n_ for n_ in names if n_ in [q.name for q in c.params]]
+                             and len(c.params) == len(ret) - 3]
+                    args = list(ret[3:])
+                    if not cands or args != [sym(q.name) for q in cands[0].params]:
+                        bad.append('arguments %s' % [T.pretty(a)[:40] for a in ret[2:]])
+                else:
+                    for k, m in binds.items():
+                        if k in names and fld(ret, m) != sym(k):
+                            bad.append('%s <- %s' % (m, T.pretty(fld(ret, m))[:60]))
+                if bad:
+                    ctx.violation('R2.factory_forwards', fsite(f), 'the factory does not hand its adaptation '
+                                  'parameters to the members of the same role: %s' % '; '.join(bad),
+                                  {'parameters': names})
+                else:
+                    ctx.holds('R2.factory_forwards', fsite(f), 'every adaptation parameter reaches the member of '
+                              'the same role')
+            ctx.guard('R2.factory_forwards', fsite(f), rfac)
+    ctx.count('checkpoint factories', nfac, 4)
     # first state given by the user is stored as is
     for c in [c for c in instances(p, 'hep::vegas_chkpt::vegas_chkpt') if not c.is_implicit
               and len(c.params) == 2 and 'vegas_pdf' in (c.params[0].type or '')]:
@@ -288,5 +329,5 @@ def check(ctx):
             ctx.guard('R3', fsite(d), r3)
     # a reloaded checkpoint continues with the state that was written: the reader stores the values
     # it read, unmodified (shared with C05)
-    share(ctx, 'C05', 'R7/C05.', ['vii.', 'i.sequence', 'i.loop_counts'])
+    share(ctx, 'C05', 'R7/C05.', ['vii.', 'i.sequence', 'i.loop_counts', 'i.element_order', 'iii.'])
 
